@@ -62,8 +62,8 @@ CHECKS = {
              "body_exception_propagates / bodyRaised_only_from_body / no_hints_identity (+ C02b); name/doc/signature, argument passing for every parameter kind/default/binding, dataclass and NamedTuple behaviour (eq, repr, isinstance, immutability, pickle) are observed against undecorated twins (3.3k cases quick).",
              "The metadata / equality / pickling clauses are CPython, dataclass and NamedTuple behaviour: observed only, not proved.", "DESIGN.md §4 C16", []),
     "C17": C("Lean 4 proof (partial: per-validation freshness, fold order via C14) + " + CORR + " on pydantic models",
-             "validation_starts_empty + C14; PYD protocol: generated models (base types np.ndarray / np.ndarray[..] / npt.NDArray[..] / torch / jax, optional and plain fields, validate_assignment) with constructions in shuffled keyword order and assignments; clean public data observed.",
-             "pydantic-core's scheduling of validators is trusted. F13 (assignment under validate_assignment) is an open known finding.", "DESIGN.md §4 C17, §5 F13", []),
+             "validation_starts_empty + C14; PYD protocol: generated models (base types np.ndarray / np.ndarray[..] / npt.NDArray[..] / torch / jax, optional and plain fields, validate_assignment) with constructions in shuffled keyword order and assignments; clean public data observed. The class-definition part of the schema hook, _resolve_numpy_dtype and unwrap_type_alias are regenerated from the source on every run and proved about (Properties/CorePyd.lean); the regenerated unwrap_type_alias is also run against the real one on real typing objects (bare / subscripted type aliases of typing, typing_extensions, numpy).",
+             "pydantic-core's scheduling of validators is trusted; what typing does when the value of an alias is subscripted (parameter substitution) is left uninterpreted in the model. F13 (assignment under validate_assignment) is an open known finding.", "DESIGN.md §4 C17, §5 F13", []),
     "C18": C("Lean 4 proof (partial: printer model with folding; negation of the full statement with a kernel-checked witness; the symbolic classes regenerated from the source by the statement-level translator and proved equal to the model, Properties/CoreSym.lean) + " + CORR + " against Python's own evaluation",
              "The printer model (Symbolic.lean) is compared with str(Shape[...]) on exhaustive-small and random trees; parse(print s) is compared with Python's evaluation of the operator expression; the full statement is false (known finding F12: no parentheses are inserted; negative folded literals).",
              "F12/F12n are open known findings; outside their region the printed string must evaluate to Python's value.", "DESIGN.md §4 C18, §5 F12", []),
